@@ -212,6 +212,9 @@ func (c *curve) encodePoint(x, y *mod.Int) []byte {
 // hence Diffie-Hellman exchange can be done without subgroup checking
 // without exposing more than the least-significant bits of the scalar.
 func (c *curve) decodePoint(bb []byte, x, y *mod.Int) error {
+	if len(bb) != c.PointLen() {
+		return errors.New("invalid elliptic curve point length")
+	}
 
 	// Convert from little-endian
 	b := make([]byte, len(bb))
